@@ -3,15 +3,15 @@
     Proved for all states / requests / tapes: a panic at any backend call index is answered EFAULT
     (nothing in any handler swallows it); a failing call of a single-call request is answered with
     ExtractErrno of the error and leaves the fid table alone; every request leaves a state from which
-    the next one (any connection) is served.  NOT proved here (covered by the differential
-    Server/Cases.v [c15_step] on every run, with faults injected at backend call indices of real
-    histories): for multi-call requests (walks, attach, rename, remove, clunk with xattr) that the
-    reply is ExtractErrno of the FIRST failing call, that Tremove still unbinds, and that the Files obtained
-    during the failed request are closed (needs exact counts of the fresh fidRefs on top of Server/Ledger.v);
+    the next one (any connection) is served.  For multi-call requests (walks, attach, rename, remove, clunk with xattr) the
+    reply is ExtractErrno of the FIRST failing call ([C15_first_fault_reply], round 5).  NOT proved here (covered by the
+    differential Server/Cases.v [c15_step] on every run, with faults injected at backend call indices of real
+    histories): that the Files obtained during the failed request are closed, beyond the walkOne fallback
+    ([C15_obtained_closed_partial]; needs exact counts of the fresh fidRefs on top of Server/Ledger.v);
     the table-unchanged clause IS proved for every request kind and call index ([C15_error_keeps_table]).  Lock release on abort is the lock model's (C07/C16), not this sequential one. *)
 From Coq Require Import NArith List String Bool.
 From P9V Require Import Base.Str gen.ConstGen gen.HandlerGen Server.State Server.Msg Server.Handlers
-  Server.Summaries Server.NameProofs Server.SummaryProofs Server.FaultProofs Server.TableFrame Server.TableErr.
+  Server.Summaries Server.NameProofs Server.SummaryProofs Server.FaultProofs Server.TableFrame Server.TableErr Server.Cases Server.FaultHist.
 Import ListNotations.
 Open Scope N_scope.
 
@@ -33,6 +33,43 @@ Theorem C15_error_reply_body : forall c m r t w v e rest,
              /\ w_tape w' = rest /\ List.length (w_log w') = S (List.length (w_log w)).
 Proof. exact body_error. Qed.
 Print Assumptions C15_error_reply_body.
+
+(** REPLY = ERRNO OF THE FIRST FAILING CALL, every request kind and call index (Server/FaultHist.v): walk of n
+    components failing at component i incl. the WalkGetAttr -> ENOSYS -> Walk + GetAttr fallback, attach =
+    Attach + GetAttr + walk, rename / renameat, remove, xattrwalk, lcreate, clunk with a pending xattr, read /
+    readdir (EOF exempt).  [first_fault] (Server/Cases.v, the function the harness evaluates on OBSERVED logs)
+    skips Close and Renamed calls, the ENOSYS of WalkGetAttr and EOF of ReadAt / Readdir.  No state invariant
+    is assumed.  Hypotheses: the handler itself does not panic (a model panic -- nil parent, exhausted DecRef
+    fuel, missing buffer pool -- is answered EFAULT, see the corollary), and for Tclunk / Tremove no Close of
+    the request reported an error (for Tclunk a Close error takes precedence over the xattr error in the
+    code; that refinement of the statement is what [c15_step] checks on every run and is not proved). *)
+Theorem C15_first_fault_reply : forall s c m tape e,
+  fst (handler c m (mkW s tape [])) <> Panic ->
+  match m with Tclunk _ | Tremove _ => close_errors (log_of (step s c m tape)) = [] | _ => True end ->
+  first_fault (log_of (step s c m tape)) = Some e ->
+  reply_of (step s c m tape) = RErr (extract_errno e).
+Proof. exact first_fault_reply. Qed.
+Print Assumptions C15_first_fault_reply.
+Theorem C15_first_fault_reply_or_efault : forall s c m tape e,
+  match m with Tclunk _ | Tremove _ => close_errors (log_of (step s c m tape)) = [] | _ => True end ->
+  first_fault (log_of (step s c m tape)) = Some e ->
+  reply_of (step s c m tape) = RErr (extract_errno e) \/ reply_of (step s c m tape) = RErr linux_EFAULT.
+Proof. exact first_fault_reply_or_efault. Qed.
+Print Assumptions C15_first_fault_reply_or_efault.
+
+(** FILES OBTAINED DURING THE FAILED REQUEST ARE CLOSED -- PARTIAL: proved for the Walk + GetAttr fallback
+    (walkOne): when GetAttr on the File just obtained fails, that File is closed before the error is returned.
+    MISSING: walkOne's Close on a wrong QID count, Tattach failing at GetAttr, and the whole-request statement
+    (the chain of fresh fidRefs of a multi-component walk dies with `dec_ref_ walk`: needs exact reference
+    counts of fresh fidRefs on top of Server/Ledger.v).  The clause is evaluated on every observed faulted
+    request by [c15_step] ([created_handles] / [closed_in]); C05 proves it on its own model. *)
+Theorem C15_obtained_closed_partial : forall ga from node names w e w',
+  w_log w = [] ->
+  walk_plain ga from node names w = (Ok (inl e), w') ->
+  forall h, In h (created_handles (rev (w_log w')) (st_next_handle (w_st w))) ->
+            closed_in (map fst (rev (w_log w'))) h = true.
+Proof. exact obtained_closed_partial. Qed.
+Print Assumptions C15_obtained_closed_partial.
 
 (** requests refused from the session state (unsafe name, unbound fid, Tauth, auth-fid attach) are
     exact no-ops of the model: same state, no backend call -- nothing a fault could act on *)
